@@ -20,7 +20,12 @@ EXPLANATION = (
     "R-COUNTER-FIRST: in Lower::get/get_at the bit claim is dominated by the successful decrement of the same huge frame's entry. "
     "R-BLIND-WRITES: store/swap/update/fetch_*/non_atomic are only called from the initialisation/recovery/reservation-slot functions. "
     "R-TOGGLE-GUARD: the single-row toggle only sets bits under the `e & mask == 0` guard (and clears under `e & mask == mask`), "
-    "multi-word CASes exchange (expected, !expected). R-BALANCE / R-BALANCE-LOWER (shared with C04): the huge-entry counter, which orders >= HUGE_ORDER trust instead of the bits, changes by exactly what each path took or gave back - an inflated counter hands out a huge frame whose frames are still held."
+    "multi-word CASes exchange (expected, !expected). R-BALANCE / R-BALANCE-LOWER (shared with C04): the huge-entry counter, which orders >= HUGE_ORDER trust instead of the bits, changes by exactly what each path took or gave back - an inflated counter hands out a huge frame whose frames are still held. "
+    "R-HUGE-COORD: wherever a Lower function uses a huge entry children(T)[L] and a bitfield bitfield(H), H names the huge frame of "
+    "that entry (H = as_huge(x) with T = as_tree(x), L = child index; or first huge frame of T + L); a tree-local index as bitfield "
+    "selector is reported. R-UNITS: dimension analysis of the index newtypes - XId(e) and direct indices into children / bitfields / "
+    "entries / data never receive a number whose known unit (frames, rows, huge frames, trees) is another one; unknown units are not "
+    "reported. R-INIT-COVERAGE (shared with C06): every table entry, also behind the managed range, is written by the initialisation."
 )
 
 A = "llfree::atomic::Atom::"
